@@ -21,6 +21,8 @@ pub struct SearchSpec {
     pub mode: String, // node path cycle nodes edges
     /// C20: operations run from inside the callback at given step indices
     pub script: Option<String>,
+    /// how the root handle is obtained (clone, container lookup, indexing, edge endpoint, search result)
+    pub via: String,
 }
 
 pub fn parse_rej(s: &str) -> Vec<(usize, usize, u32)> {
@@ -56,9 +58,9 @@ pub fn parse_search(t: &[&str]) -> SearchSpec {
         None => (t[1].to_string(), 0),
     };
     if t[0] == "search" {
-        SearchSpec { kind: kind, variant, tr: t[2] == "tr", dflt: false, root: t[3].parse().unwrap(), target: t[4].parse().ok(), method, rej, mode: t[6].into(), script }
+        SearchSpec { kind: kind, variant, tr: t[2] == "tr", dflt: false, root: t[3].parse().unwrap(), target: t[4].parse().ok(), method, rej, mode: t[6].into(), script, via: "clone".into() }
     } else {
-        SearchSpec { kind, variant, tr: t[2] == "tr", dflt: t[2] == "default", root: t[3].parse().unwrap(), target: None, method, rej, mode: t[5].into(), script }
+        SearchSpec { kind, variant, tr: t[2] == "tr", dflt: t[2] == "default", root: t[3].parse().unwrap(), target: None, method, rej, mode: t[5].into(), script, via: "clone".into() }
     }
 }
 
@@ -139,8 +141,16 @@ pub fn show_search(spec: &SearchSpec, o: &SearchOut) -> String {
     s
 }
 
+macro_rules! no_cfg {
+    ($bb:ident, $steps:expr) => {{
+        let _: &[&str] = $steps;
+    }};
+}
 macro_rules! with_method {
-    ($b:expr, $spec:expr, $trace:expr, $run:ident, $hook:expr) => {{
+    ($b:expr, $spec:expr, $trace:expr, $run:ident, $hook:expr) => {
+        with_method!($b, $spec, $trace, $run, $hook, no_cfg, &[])
+    };
+    ($b:expr, $spec:expr, $trace:expr, $run:ident, $hook:expr, $cfg:ident, $post:expr) => {{
         let rej = $spec.rej.clone();
         let mut f_each = |e: &Edge<usize, i64, u32>| {
             let t = (*e.0.key(), *e.1.key(), e.2);
@@ -161,16 +171,20 @@ macro_rules! with_method {
         };
         let b = $b;
         match $spec.method.as_str() {
+            // `$post`: configuration calls made AFTER the closure was attached (builder call order must not matter)
             "each" => {
                 let mut b = b.for_each(&mut f_each);
+                $cfg!(b, $post);
                 $run!(b)
             }
             "filter" => {
                 let mut b = b.filter(&mut f_filter);
+                $cfg!(b, $post);
                 $run!(b)
             }
             _ => {
                 let mut b = b;
+                $cfg!(b, $post);
                 $run!(b)
             }
         }
@@ -301,37 +315,51 @@ macro_rules! kind_search {
         pub fn do_search(st: &St, spec: &SearchSpec, hook: Option<&dyn Fn(usize, (usize, usize, u32))>) -> SearchOut {
             let mut out = SearchOut::empty();
             let trace: RefCell<Vec<(usize, usize, u32)>> = RefCell::new(vec![]);
-            let root = st.node(spec.root).clone();
+            let root = st.handle(spec.root, &spec.via);
             let tgt = spec.target;
             {
                 run_search_modes!(spec, out, trace, st);
                 match spec.kind.as_str() {
-                    "bfs" => {
-                        // the configuration calls in the order the variant says: T = transpose, G = target
-                        let mut b = root.bfs();
-                        for step in [["T", "G"], ["G", "T"]][spec.variant % 2] {
-                            b = match step { "T" => if spec.tr { b.transpose() } else { b }, _ => match &tgt { Some(t) => b.target(t), None => b } };
+                    "bfs" | "dfs" => {
+                        // the configuration calls in the order the variant says (T = transpose, G = target), before or
+                        // after the closure is attached
+                        let all = [["T", "G"], ["G", "T"]][spec.variant % 2];
+                        let npre = if spec.variant / 6 % 2 == 1 { 0 } else { all.len() };
+                        macro_rules! cfg {
+                            ($bb:ident, $steps:expr) => {
+                                for step in $steps {
+                                    $bb = match *step { "T" => if spec.tr { $bb.transpose() } else { $bb }, _ => match &tgt { Some(t) => $bb.target(t), None => $bb } };
+                                }
+                            };
                         }
-                        with_method!(b, spec, trace, run, hook)
-                    }
-                    "dfs" => {
-                        let mut b = root.dfs();
-                        for step in [["T", "G"], ["G", "T"]][spec.variant % 2] {
-                            b = match step { "T" => if spec.tr { b.transpose() } else { b }, _ => match &tgt { Some(t) => b.target(t), None => b } };
+                        if spec.kind == "bfs" {
+                            let mut b = root.bfs();
+                            cfg!(b, &all[..npre]);
+                            with_method!(b, spec, trace, run, hook, cfg, &all[npre..])
+                        } else {
+                            let mut b = root.dfs();
+                            cfg!(b, &all[..npre]);
+                            with_method!(b, spec, trace, run, hook, cfg, &all[npre..])
                         }
-                        with_method!(b, spec, trace, run, hook)
                     }
                     "pfs-min" | "pfs-max" => {
                         // P = min()/max()
-                        let mut b = root.pfs();
-                        for step in [["P", "T", "G"], ["T", "P", "G"], ["G", "T", "P"], ["P", "G", "T"], ["T", "G", "P"], ["G", "P", "T"]][spec.variant % 6] {
-                            b = match step {
-                                "P" => if spec.kind == "pfs-max" { b.max() } else { b.min() },
-                                "T" => if spec.tr { b.transpose() } else { b },
-                                _ => match &tgt { Some(t) => b.target(t), None => b },
+                        let all = [["P", "T", "G"], ["T", "P", "G"], ["G", "T", "P"], ["P", "G", "T"], ["T", "G", "P"], ["G", "P", "T"]][spec.variant % 6];
+                        let npre = if spec.variant / 6 % 2 == 1 { 0 } else { all.len() };
+                        macro_rules! cfg {
+                            ($bb:ident, $steps:expr) => {
+                                for step in $steps {
+                                    $bb = match *step {
+                                        "P" => if spec.kind == "pfs-max" { $bb.max() } else { $bb.min() },
+                                        "T" => if spec.tr { $bb.transpose() } else { $bb },
+                                        _ => match &tgt { Some(t) => $bb.target(t), None => $bb },
+                                    };
+                                }
                             };
                         }
-                        with_method!(b, spec, trace, run, hook)
+                        let mut b = root.pfs();
+                        cfg!(b, &all[..npre]);
+                        with_method!(b, spec, trace, run, hook, cfg, &all[npre..])
                     }
                     _ => {}
                 }
@@ -359,7 +387,7 @@ macro_rules! kind_search {
         pub fn do_search(st: &St, spec: &SearchSpec, hook: Option<&dyn Fn(usize, (usize, usize, u32))>) -> SearchOut {
             let mut out = SearchOut::empty();
             let trace: RefCell<Vec<(usize, usize, u32)>> = RefCell::new(vec![]);
-            let root = st.node(spec.root).clone();
+            let root = st.handle(spec.root, &spec.via);
             let tgt = spec.target;
             {
                 run_search_modes!(spec, out, trace, st);
@@ -375,11 +403,18 @@ macro_rules! kind_search {
                         with_method!(b, spec, trace, run, hook)
                     }
                     "pfs-min" | "pfs-max" => {
-                        let mut b = root.pfs();
-                        for step in [["P", "G"], ["G", "P"]][spec.variant % 2] {
-                            b = match step { "P" => if spec.kind == "pfs-max" { b.max() } else { b.min() }, _ => match &tgt { Some(t) => b.target(t), None => b } };
+                        let all = [["P", "G"], ["G", "P"]][spec.variant % 2];
+                        let npre = if spec.variant / 6 % 2 == 1 { 0 } else { all.len() };
+                        macro_rules! cfg {
+                            ($bb:ident, $steps:expr) => {
+                                for step in $steps {
+                                    $bb = match *step { "P" => if spec.kind == "pfs-max" { $bb.max() } else { $bb.min() }, _ => match &tgt { Some(t) => $bb.target(t), None => $bb } };
+                                }
+                            };
                         }
-                        with_method!(b, spec, trace, run, hook)
+                        let mut b = root.pfs();
+                        cfg!(b, &all[..npre]);
+                        with_method!(b, spec, trace, run, hook, cfg, &all[npre..])
                     }
                     _ => {}
                 }
@@ -569,6 +604,8 @@ macro_rules! ext_mod {
                 /// address of every node's lock (learned at creation) and the lock trace of the last edge operation
                 pub lockmap: Vec<(usize, usize)>,
                 pub last_lt: Option<String>,
+                /// `#via=` of the current request
+                pub via: String,
             }
             kind_search!($kind);
             kind_reversed!($kind);
@@ -730,7 +767,10 @@ macro_rules! ext_mod {
             pub fn exec_line(st: &mut St, ext: &mut Ext, t: &[&str], raw: &str, ctx: &mut Ctx, case: &str, li: usize) -> String {
                 match t[0] {
                     "search" | "order" => {
-                        let spec = parse_search(t);
+                        let mut spec = parse_search(t);
+                        if !ext.via.is_empty() {
+                            spec.via = ext.via.clone();
+                        }
                         let sres: RefCell<Vec<String>> = RefCell::new(vec![]);
                         let sfail: RefCell<Option<String>> = RefCell::new(None);
                         let g0 = RefCell::new(if ext.graphs.is_empty() { G::new() } else { std::mem::take(&mut ext.graphs[0]) });
